@@ -69,6 +69,8 @@ theorem shippedOk_spec (table : List MethodToml) (m : MethodToml) (h : shippedOk
       | error e => rw [hr] at h4; simp at h4
       | ok u => rfl
 
+theorem isSome_eq_not_isNone' {α : Type} (o : Option α) : o.isSome = !o.isNone := by cases o <;> rfl
+
 /-- `runMethod` produces a table exactly when the four preconditions hold -/
 theorem runMethod_ok_iff (s : Supplied) (c : Cfg) :
     runMethod s c = .ok () ↔
@@ -76,14 +78,15 @@ theorem runMethod_ok_iff (s : Supplied) (c : Cfg) :
       (c.grouping.needsMqGroups = true → s.mqGroups = true) ∧
       (c.grouping.rescues = true → c.score.canRescue = true) := by
   unfold runMethod
+  cases h0 : (c.input == Input.mq) <;>
   cases h1 : s.has c.input <;> cases h2 : c.scoreColumn.isNone <;>
     cases h3 : c.grouping.needsMqGroups <;> cases h4 : s.mqGroups <;>
     cases h5 : c.grouping.rescues <;> cases h6 : c.score.canRescue <;>
-    simp_all [Option.isNone_iff_eq_none, Option.isSome_iff_ne_none] <;>
-    (first | (intro hh; simp_all) | skip)
+    simp [isSome_eq_not_isNone', h2]
 
 theorem runMethod_error_cases (s : Supplied) (c : Cfg) (e : Err) (h : runMethod s c = .error e) :
-    e = .missingInput ∨ e = .noScoreColumn ∨ e = .missingMqProteinGroups ∨ e = .rescueUnsupported := by
+    e = .missingInput ∨ e = .noScoreColumn ∨ e = .missingMqProteinGroups ∨ e = .noProteinScoreFile ∨
+      e = .rescueUnsupported := by
   unfold runMethod at h
   split at h
   · injection h with h; exact Or.inl h.symm
@@ -92,8 +95,10 @@ theorem runMethod_error_cases (s : Supplied) (c : Cfg) (e : Err) (h : runMethod 
     · split at h
       · injection h with h; exact Or.inr (Or.inr (Or.inl h.symm))
       · split at h
-        · injection h with h; exact Or.inr (Or.inr (Or.inr h.symm))
-        · cases h
+        · injection h with h; exact Or.inr (Or.inr (Or.inr (Or.inl h.symm)))
+        · split at h
+          · injection h with h; exact Or.inr (Or.inr (Or.inr (Or.inr h.symm)))
+          · cases h
 
 /-! ### Python `sub in d` as "d = a ++ sub ++ b" -/
 
